@@ -270,6 +270,13 @@ def units(tier):
         it.name = it.name.replace('c08_', 'c07_struct_')
         it.prop = PROP
         sinsts.append(it)
+    # arrays of pointers are encoded / decoded element by element also where the guest representation is as wide as a host
+    # pointer (backend variant vsbx64: 64-bit offsets): contracts of C04
+    from . import C04
+    for it in (C04.ptr_array_inst(4, tier, 'vsbx64'), C04.ptr_array_store_inst(4, tier, 'vsbx64'), C04.ptr_array_store_inst(4, tier)):
+        it.name = it.name.replace('c04_', 'c07_')
+        it.prop = PROP
+        insts.append(it)
     return [Unit('C07_guest_bytes', insts), Unit('C07_copy_and_verify', cinsts, extra_cpp=C09.EXTRA_CPP),
             Unit('C07_struct_fields', sinsts, includes=('rlbox.hpp', 'vsbx.hpp', 'vstructs.hpp'))]
 
